@@ -128,7 +128,7 @@ func c06World(tp *Tape, env *Env) (*Plan, *Violation) {
 	g.ensureYieldingCycles(prog)
 	layout := genLayout(tp)
 	w := World{Readers: distribute(tp, prog, layout, 2)}
-	w.Host = HostSpec{Storer: []string{"rec", "mem"}[tp.Int(0, 1, "storer")], Probes: true, Seed: "s1", Handlers: cfg.Handlers, FailedRegs: tp.Chance(25, "failedregs")}
+	w.Host = HostSpec{Storer: []string{"rec", "mem", "cells"}[tp.Int(0, 2, "storer")], Probes: true, Seed: "s1", Handlers: cfg.Handlers, FailedRegs: tp.Chance(25, "failedregs")}
 	if len(cfg.Handlers) > 0 {
 		w.Host.Scheds = drawScheds(tp, true)
 	}
